@@ -13,6 +13,8 @@ var verifC21Skeletons = []string{
 	"a.foo#1234abcd {t:Type} {n:#} m:# x:m.3?int y:m.31?%(Vector t) z:n*[int] = a.Foo t n;\n",
 	"b.bar u:# v:u.0?%True w:(Tuple int 3) q:(1 + 2)*[ a:int b:[string] ] r:[%b.Bar] = b.Bar;\nb.baz = b.Bar;\n",
 	"---functions---\n@read @any f.get#0badf00d m:# k:m.7?long x:!X s:(Tuple (Vector int) (2 + 3)) = Maybe f.Res;\n---types---\nc.d n:# t:n*[n*[%c.D]] = c.D;\n",
+	// a field carrying both a field mask and the ! marker (top level and inside a repetition), bare % inside masks, nested arithmetic
+	"---functions---\n@write g.put#0badf11d {X:Type} fields_mask:# query:fields_mask.1?!X n:# rep:n*[ fields_mask.2?!X ] w:fields_mask.3?%(Vector int) = g.Res;\n---types---\ng.arr a:(2 + 3)*[int] b:(1 + (1 + 3))*[ c:int ] = g.Arr;\n",
 }
 
 func verifSymFields(fs []Field) {
@@ -31,6 +33,39 @@ func verifSymFields(fs []Field) {
 			verifSymType(&f.FieldType)
 		}
 	}
+}
+
+// verifFlattenArith rewrites every arithmetic sum into the single number it evaluates to; reports whether anything changed
+func verifFlattenArith(fs []Field) bool {
+	ch := false
+	for i := range fs {
+		f := &fs[i]
+		if f.IsRepeated {
+			if f.ScaleRepeat.ExplicitScale && f.ScaleRepeat.Scale.IsArith && len(f.ScaleRepeat.Scale.Arith.Nums) > 1 {
+				f.ScaleRepeat.Scale.Arith.Nums = []uint32{f.ScaleRepeat.Scale.Arith.Res}
+				ch = true
+			}
+			ch = verifFlattenArith(f.ScaleRepeat.Rep) || ch
+		} else {
+			ch = verifFlattenArithType(&f.FieldType) || ch
+		}
+	}
+	return ch
+}
+
+func verifFlattenArithType(t *TypeRef) bool {
+	ch := false
+	for i := range t.Args {
+		if t.Args[i].IsArith {
+			if len(t.Args[i].Arith.Nums) > 1 {
+				t.Args[i].Arith.Nums = []uint32{t.Args[i].Arith.Res}
+				ch = true
+			}
+		} else {
+			ch = verifFlattenArithType(&t.Args[i].T) || ch
+		}
+	}
+	return ch
 }
 
 func verifSymArith(a *Arithmetic) {
@@ -75,7 +110,14 @@ func verifEqName(a, b Name, id string) {
 	verifAssert(a.Namespace == b.Namespace && a.Name == b.Name, id)
 }
 
+// the canonical listing (C25) writes arithmetic as its value: only the value is compared there
+var verifArithValueOnly bool
+
 func verifEqArith(a, b Arithmetic) {
+	if verifArithValueOnly {
+		verifAssert(a.Res == b.Res, "arith-value")
+		return
+	}
 	verifAssert(len(a.Nums) == len(b.Nums), "arith-same-terms")
 	if len(a.Nums) == len(b.Nums) {
 		for i := range a.Nums {
@@ -187,6 +229,7 @@ func verifSkeleton() *TL {
 
 // VerifC21RoundTrip: print (real quicktemplate printer), parse, compare — for ALL values of tags, bits and arithmetic.
 func VerifC21RoundTrip() {
+	verifArithValueOnly = false
 	tl := verifSkeleton()
 	text := tl.String()
 	tl2, err := ParseTLFile(text, "p.tl", LexerOptions{LexerLanguage: TL1})
@@ -246,6 +289,15 @@ func VerifC23Tags() {
 		c1, c2 := t1.Combinators()[0], t2.Combinators()[0]
 		verifAssert(c1.Construct.ID == c2.Construct.ID, "tag-independent-of-layout")
 		verifAssert(c1.canonicalForm() == c2.canonicalForm(), "canonical-form-independent-of-layout")
+		// documented rule: arithmetic is replaced by its value - the same combinator with every sum written as the single number it
+		// evaluates to has the same canonical form (and hence the same implicit tag)
+		if t3, e3 := ParseTLFile(prefix+one, "c.tl", LexerOptions{LexerLanguage: TL1}); e3 == nil {
+			c3 := t3.Combinators()[0]
+			if verifFlattenArith(c3.Fields) || (c3.IsFunction && verifFlattenArithType(&c3.FuncDecl)) {
+				verifCover("arithmetic-flattened")
+				verifAssert(c3.canonicalForm() == c1.canonicalForm(), "arithmetic-replaced-by-its-value-in-canonical-form")
+			}
+		}
 		if c.Construct.IDExplicit {
 			verifAssert(verifImplies(c.Construct.ID != 0, c1.Construct.ID == c.Construct.ID), "explicit-tag-used-verbatim")
 		} else {
@@ -282,6 +334,7 @@ func verifFieldsApplied(fs []Field) bool {
 
 // VerifC25Canonical: one line per combinator carrying its effective tag; each line + ';' re-parses to the same combinator.
 func VerifC25Canonical() {
+	verifArithValueOnly = true
 	tl := verifSkeleton()
 	all := tl.Combinators()
 	for _, c := range all[verifChoice(len(all)):][:1] { // one combinator per path
